@@ -28,6 +28,11 @@ func genDecoderSpec(r *RNG, target, class string) DecoderSpec {
 	if r.Chance(0.1) {
 		d.WindowSize = r.Pick(1, 2, 3, 7, 8, 9, 16, 64)
 	}
+	if r.Chance(0.01) {
+		// all-default configuration
+		d.WindowSize, d.BufferSize = 0, 0
+		return d
+	}
 	ws := d.WindowSize
 	if r.Chance(0.02) {
 		// boundary that Verify must reject (BufferSize <= WindowSize); if a
@@ -58,10 +63,13 @@ func genDecoderSpec(r *RNG, target, class string) DecoderSpec {
 	return d
 }
 
+// sizes returns the geometry used to size generated items. For the
+// all-default configuration (8 MiB window) items stay small: the buffer is
+// never filled, but the default code paths are exercised.
 func (d *DecoderSpec) sizes() (ws, bs int) {
 	ws, bs = d.WindowSize, d.BufferSize
 	if ws == 0 {
-		ws = 8 << 20
+		return 2048, 4096
 	}
 	if bs == 0 {
 		bs = 2 * ws
